@@ -114,6 +114,8 @@ type Exec struct {
 	rng      *rand.Rand
 	virtual  bool
 	ctlDiffer     int  // before the last Control: uuids named by the directory vs uuids of schema.json: 1 differ, 0 agree, -1 unknown
+	otherN        int  // objects stored at creation in the second collection (shape.Other) of the handle; 0: unknown
+	otherU        [2]string
 	repairTouched bool // the last Repair changed, added or removed an object file
 	lastColl []Flat // what the last Collect / One returned, in the order it was returned
 	lastRev  bool
@@ -693,6 +695,14 @@ func (e *Exec) step(t []string) {
 			err2 := db.Create(&shape.Other{}, sod.DefaultSchema)
 			if err2 != nil {
 				e.emit("# create other: %v", err2)
+			} else if n, cerr := db.Count(&shape.Other{}); cerr == nil && n == 0 && e.failNext < 0 {
+				// a second collection lives in the same handle, with two objects of its own: nothing done to
+				// the first collection may ever change it
+				o1, o2 := &shape.Other{A: 1}, &shape.Other{A: 2}
+				if _, ierr := db.InsertOrUpdateMany(o1, o2); ierr == nil {
+					e.otherN = 2
+					e.otherU = [2]string{o1.UUID(), o2.UUID()}
+				}
 			}
 		}
 		e.emit("r %s", cls(err))
@@ -804,6 +814,19 @@ func (e *Exec) step(t []string) {
 	case "count":
 		n, err := db.Count(e.of())
 		e.emit("r %s %d", cls(err), n)
+		if e.otherN > 0 && e.failNext < 0 {
+			// (the harness's own mixed batches may add objects to it; the two it started with stay as they are)
+			if n2, err2 := db.Count(&shape.Other{}); err2 == nil {
+				if n2 < e.otherN {
+					e.emit("! C01 the OTHER collection of the handle now holds %d objects, it held %d: calls on one collection changed another", n2, e.otherN)
+				}
+				for i, u := range e.otherU {
+					if o, gerr := db.GetByUUID(&shape.Other{}, u); gerr != nil || o.(*shape.Other).A != i+1 {
+						e.emit("! C01 object %d of the OTHER collection of the handle cannot be read back as it was stored (%v)", i+1, gerr)
+					}
+				}
+			}
+		}
 	case "all":
 		var objs []sod.Object
 		var err error
@@ -1040,6 +1063,7 @@ func (e *Exec) step(t []string) {
 		e.emit("r ok")
 		e.emit("# hash %s", dirHash(e.root))
 	case "drop":
+		e.otherN = 0
 		e.emit("r %s", cls(db.Drop()))
 	case "schema":
 		_, err := db.Schema(e.of())
